@@ -279,5 +279,51 @@ def run(ctx, ck):
     # ------------------------------------------------------------------ D4 (shared with C10)
     from .C10 import check_dbi_normalisation
     check_dbi_normalisation(ctx, ck, rule='R-DEP.dbi-normalised')
+    # the voltage that drives the model is the voltage that was given: as a complex number it is used as it is,
+    # as magnitude and phase (degrees) it is magnitude * e^(j phase pi / 180)
+    ck.rule('R-KIND.source-voltage', 'Excitation.voltage is the given complex voltage resp. magnitude * exp(j * phase_deg * pi / 180)')
+    from ..symx import SymExec as _SX
+    from ..poly import poly_roles as _pr, cancel as _cancel
+    ex = m.func('mininec.Excitation.__init__')
+    vparam, pparam = ex.params[1], ex.params[2]
+    seen_v = {}
+    for p_ in _SX(ctx, ex, bind_loops=True, effects=True, depth=3, max_paths=500).run():
+        if p_.end == 'raise':
+            continue
+        none_ = [b_ for t_, b_ in p_.conds if isinstance(b_, bool) and t_ == '%s is None' % pparam]
+        if not none_:
+            continue
+        vs = [ev[2] for ev in p_.events if ev[0] == 'store' and ev[1] == 'self.voltage']
+        if not vs:
+            seen_v[none_[-1]] = (False, 'self.voltage is not set', None)
+            continue
+        v_ = vs[-1]
+        ok_, why_ = False, 'self.voltage = %s' % norm(v_)[:100]
+        base = expo = None
+        if isinstance(v_, ast.BinOp) and isinstance(v_.op, ast.Mult):
+            for a_, b_ in ((v_.left, v_.right), (v_.right, v_.left)):
+                if isinstance(b_, ast.BinOp) and isinstance(b_.op, ast.Pow) and norm(b_.left) in ('np.e', 'math.e'):
+                    base, expo = a_, b_.right
+                elif isinstance(b_, ast.Call) and (dotted(b_.func) or '').split('.')[-1] == 'exp' and len(b_.args) == 1:
+                    base, expo = a_, b_.args[0]
+        try:
+            if none_[-1]:
+                # complex voltage given
+                if norm(v_) == vparam:
+                    ok_ = True
+                elif base is not None and norm(base) in ('np.abs(%s)' % vparam, 'abs(%s)' % vparam):
+                    ok_ = _cancel(_pr(expo, {}) - _pr(ast.parse('1j * np.angle(%s)' % vparam, mode='eval').body, {})).t == {}
+            else:
+                ok_ = base is not None and norm(base) == vparam and \
+                    _cancel(_pr(expo, {}) - _pr(ast.parse('1j * (%s / 180 * np.pi)' % pparam, mode='eval').body, {})).t == {}
+        except (ValueError, ZeroDivisionError):
+            ok_ = False
+        prev = seen_v.get(none_[-1])
+        if prev is None or (prev[0] and not ok_):
+            seen_v[none_[-1]] = (ok_, why_, p_)
+    for isc in (True, False):
+        r_ = seen_v.get(isc)
+        ck.ob('R-KIND.source-voltage', '%s|%s' % (ex.qual, 'complex' if isc else 'polar'), r_ is not None and r_[0], ex.loc(),
+              ('%s given: %s' % ('complex voltage' if isc else 'magnitude and phase in degrees', r_[1])) if r_ else 'no such path')
     ck.undecided += ['numerical superposition of several sources',
                      'two sources registered on the same pulse (statement does not define it)']
